@@ -1,7 +1,58 @@
 """Per-property claim texts for MANIFEST.json (edited by hand, consumed by gen_manifest.py)."""
-FIX_COMMITS = ["da7f963 (C05 control frames)", "41cccf6 (C06 truncated UTF-8)", "36eeb72 (C08 one close frame)", "ccb92e4 (C08 close() releases transport)", "4a48db5 (C09 redirect limit)"]
+FIX_COMMITS = ["da7f963 (C05 control frames)", "41cccf6 (C06 truncated UTF-8)", "36eeb72 (C08 one close frame)", "ccb92e4 (C08 close() releases transport)", "4a48db5 (C09 redirect limit)", "e29292b (C19 no_proxy)", "0ec712f (C20 cookie jar case)", "8c7ea56 (C10 Connection header)", "5f85bd6 (C14/C15 close frame routing)", "0ab4b1b (C14 error flag reset)", "bc38171 1ed0f6e 316cc91 5082854 (C17 internal exceptions / declared length)"]
 NOT_APPLICABLE = {}
 CLAIMS = {
+ "C10": {
+  "text": "_get_handshake_headers is interpreted over the option grid (quick: default plus every one- and two-dimension variation, ~180 classes; thorough: the full product of 11 dimensions) with the key and the resource as symbolic holes; the resulting header list is compared line by line with an independently written reference request (request line, Upgrade, Host with IPv6 brackets and non-default port, Origin by scheme / option / suppression, Key, Version 13, Connection, subprotocols, custom headers list/dict/None values, cookie order, two empty terminators). handshake(): one write of the CRLF join before the first read. Key: base64 of os.urandom(16), one draw per request, two draws for two requests, never cached.",
+  "note": "Not decided: acceptance by an independent server implementation, header injection through option values, the URL->resource mapping inside urlparse (C18). Option values are representatives per class.",
+  "technique": "abstract interpretation with string templates over a configuration grid + reference comparison",
+ },
+ "C11": {
+  "text": "_ssl_socket -> _wrap_sni_socket interpreted over the grid cert_reqs x check_hostname x ca_certs x ca_cert_path x CA-bundle env {unset,file,dir} x server_hostname x user context (quick: 1- and 2-dimension slices; thorough: all 576); ordered effects on the SSLContext (protocol PROTOCOL_TLS_CLIENT, check_hostname, verify_mode, trust-store call, SNI name, user context untouched) compared with an oracle; _http.connect wraps exactly when the URL is secure (direct and via HTTP proxy), after the CONNECT tunnel, nothing written between wrap and return; caller options override defaults.",
+  "note": "Not decided: what OpenSSL concludes about a certificate chain or host name given these settings (trusted library); python_socks (SOCKS) path is absent from the build.",
+  "technique": "abstract interpretation with abstract dicts over a configuration grid; effect-order check",
+ },
+ "C13": {
+  "text": "The closures of run_forever are interpreted with the low-level socket replaced at its method boundary: routing table of read() per opcode x on_cont_message x skip_utf8 (ordered callbacks with their argument terms, one recv_data_frame(True) per call); _callback contains user exceptions (on_error, no propagation; KeyboardInterrupt not swallowed) and is the only caller of user callbacks; setSock: connect < exactly one of on_open/on_reconnect < dispatcher.read; loop skeleton of Dispatcher and SSLDispatcher: one read per readiness, check_callback on every iteration including silent ones, selector closed on all exits, pending() before blocking.",
+  "note": "Not decided: latency ('as soon as the bytes have arrived'), TLS record buffering inside ssl, behaviour of an external dispatcher (rel). Dispatcher loops are explored to a bounded unrolling; the per-iteration shape is what is checked.",
+  "technique": "abstract interpretation of closures with effect traces; sibling comparison of the two dispatcher loops",
+ },
+ "C14": {
+  "text": "teardown is idempotent with the flag read and set in one lock section; on_close is its last effect after stopping pings, clearing keep_running, closing and dropping the socket; whole run_forever with the built-in dispatcher over ending scenarios (refused connect, frame then loss, close frame, ping timeout, KeyboardInterrupt, app.close() from a callback): exactly one on_close, last; close frame reaches on_close as (be16(data), utf-8(data[2:])) by value flow and is not an error; result True iff on_error fired; error flag reset per run; ping thread signalled and joined; re-run refused while a socket exists.",
+  "note": "Not decided: close() from another thread preempting the loop at an arbitrary line (WebSocketApp.sock is written by close() and read by read()/_send_ping without a common lock -- noted, not reported), KeyboardInterrupt at arbitrary bytecodes, external dispatcher teardown.",
+  "technique": "typestate / effect-trace analysis by abstract interpretation over a scenario enumeration",
+ },
+ "C15": {
+  "text": "handleDisconnect over reconnect x dispatcher family x exception class: reconnect path never tears down nor fires on_close, stops the ping thread first, reschedules setSock through an external dispatcher with the interval; setSock(reconnecting): old socket shut down before the new one, ping thread started once after connect; DispatcherBase.reconnect sleeps then calls reconnector(reconnecting=True), WrappedDispatcher agrees; run_forever with reconnect=5: loss -> sleep -> new WebSocket without on_close, server close frame or app.close() end the run with one connection; loops read keep_running.",
+  "note": "Not decided: that the attempt happens after the interval in real time, liveness of the retry loop, number of simultaneously live transports under races, behaviour inside rel.",
+  "technique": "effect-trace analysis by abstract interpretation over a scenario enumeration",
+ },
+ "C16": {
+  "text": "Argument validation over 36 (interval, timeout) order classes: refused before any state change iff timeout<=0, interval<0, or both positive and interval<=timeout; check() evaluated on every weak ordering of last-ping, deadline, now, last-pong (61 classes) against raise <=> P!=0 and N>Q and (G<P or G>Q); check runs on silent iterations (C13 rule shared); ping loop: wait(interval) on the stop event before every ping, last_ping_tm stamped before ping(payload), send errors contained, stops on the event; pong time stamped on PONG only; timestamps zeroed on start/stop.",
+  "note": "Not decided: every real-time bound (no later than two timeouts, periodicity) and interleavings of the ping thread with the reader -- time and schedules are outside static reach.",
+  "technique": "constant propagation over ordering classes + effect-trace analysis of the ping loop",
+ },
+ "C17": {
+  "text": "May-raise analysis under a hostile peer by abstract interpretation: values from the transport are opaque; bytes.decode, int(), indexing/unpacking split() results, header key lookups are explored in their failing mode; the class of every exception leaving read_headers / handshake / connect / recv (all four validation x fragment-delivery configurations, idle and in-message) / the proxy exchange must be in the WebSocketException hierarchy or a transport error. decode is discharged only by a truthy validate_utf8 of the same term, int() by a truthy isdigit() of the same term. Read sizes constant or min(constant, ...); every loop iteration consumes input or leaves; all 57 explicit raises name library exceptions (or re-raise / refuse the caller's own arguments).",
+  "note": "Not decided: AttributeError/TypeError in general (no nullness or type inference), hangs inside the transport, memory growth from unbounded header lines; indexing of bytes objects is not modelled as IndexError (close body length is C05's).",
+  "technique": "may-raise / taint analysis by abstract interpretation with failure-mode forking; syntactic read-size and raise-class lints",
+ },
+ "C18": {
+  "text": "parse_url interpreted with urlparse as an opaque record: complete scheme x explicit-port x path x query table plus the three refusals; _http.connect: parse_url precedes every network call and its ValueError propagates untouched; _open_socket over address lists of length 1..3 with every pattern of ok/refused/unreachable/other outcomes against a reference loop (order, fall-through set contains ECONNREFUSED and ENETUNREACH, failed sockets closed, last error raised); timeout + DEFAULT_SOCKET_OPTION (incl. TCP_NODELAY) + caller options before connect on every socket; tuple agreement between parse_url, the resolver call, TLS wrap, dispatcher choice and the handshake call.",
+  "note": "Not decided: the URL grammar itself (urllib.parse.urlparse: user-info, case, brackets, port range) and name resolution. errno constants are those of the build platform.",
+  "technique": "abstract interpretation with opaque records + exhaustive outcome-pattern enumeration against a reference loop",
+ },
+ "C19": {
+  "text": "get_proxy_info decision table over exemption x option x port x environment (lower/upper case, per scheme) x scheme (60 classes); _is_no_proxy_host by constant propagation over 139 cases: look-alike host names on a small label alphabet, every IPv4 prefix length 0..32 inside/outside, malformed prefixes, '*', exact, environment fallback, against an independent reference; _get_addrinfo_list dials the proxy (port default 80) iff a proxy applies; _tunnel: one write of the CONNECT template with origin host:port and base64(user[:pass]), proceeds only on status 200, any unreadable reply -> WebSocketProxyException; tunnel addressed to the origin, before TLS.",
+  "note": "Not decided: SOCKS proxies (python_socks absent from the build), DNS. socket.inet_aton / struct / urlparse are the analyser's own stdlib applied to constants.",
+  "technique": "constant propagation over case grids with reference comparison; string-template check of the CONNECT request",
+ },
+ "C20": {
+  "text": "SimpleCookieJar.add/get interpreted on all histories of up to two responses (quick: 37, thorough: 56) over 7 Set-Cookie constants (domains in upper/lower case, with/without dot, without Domain) followed by 9 lookups (inside, outside, look-alike, case variants); the Cookie value equals an independent reference jar's on every (history, host); stored keys dotted and lower-case; no Domain -> not stored; single feeder (handshake_response.__init__), Set-Cookie lines merged with '; ', jar asked for the URL host.",
+  "note": "Not decided: what http.cookies.SimpleCookie parses from arbitrary header text (the analyser's own stdlib is applied to the constants); histories longer than two responses.",
+  "technique": "constant propagation over bounded histories with reference comparison",
+ },
+
  "C01": {
   "text": "Structural necessary conditions of a well-formed client frame, decided from the source: ABNF.format is interpreted abstractly over all payload lengths (interval partition) giving the complete length-encoding table; the two header-byte expressions are normalised to a bit layout and compared with RFC 6455 5.2; every public sender is interpreted down to send_frame and the frame it builds is checked (rsv=0, mask=1, requested fin/opcode, UTF-8 text); exactly one key draw of 4 bytes whose result is both the wire prefix and the XOR key, from os.urandom unless a key source is configured; send_frame returns len(format()) and send returns it; only send_frame reaches the transport; trace blocks are pure.",
   "note": "Not decided (value properties): the XOR arithmetic of _mask for arbitrary payloads beyond its constants agreeing, str.encode, what an independent decoder recovers. Trusted: struct.pack, os.urandom, Python semantics as implemented by the interpreter's transfer functions.",
